@@ -840,8 +840,13 @@ impl Wire {
                 break;
             }
             let done = self.pending_tasks().is_empty();
-            if self.idle_rounds >= thr + 2 {
-                stop = if done { Stop::Complete } else { Stop::Fixpoint };
+            // Early stop only once every task has finished (the rest of the
+            // close handshake has drained). While tasks are waiting the run
+            // always continues to the liveness horizon: the stack has silent
+            // timers (retransmit / persist counters), so a quiet wire proves
+            // nothing.
+            if done && self.idle_rounds >= thr + 2 {
+                stop = Stop::Complete;
                 break;
             }
             let d = self.max_hold;
